@@ -234,7 +234,11 @@ class DateTimeDataType(BaseDataType):
         self.format = out_format
 
     def to_er7(self, encoding_chars=None):
-        return datetime.strftime(self.value, self.format)
+        # strftime does not zero-pad years before 1000 on every platform
+        fmt = self.format
+        if self.value is not None:
+            fmt = fmt.replace('%Y', '{0:04d}'.format(self.value.year))
+        return datetime.strftime(self.value, fmt)
 
 
 class WD(TextualDataType):
